@@ -509,7 +509,13 @@ scanAgain:
 		case '/':
 			if S.ch == '/' || S.ch == '*' {
 				// comment
+				block, errs := S.ch == '*', S.ErrorCount
 				S.scanComment(pos)
+				if block && S.ErrorCount > errs {
+					// a block comment that is not terminated is not a comment: the
+					// rest of the file must not be dropped silently
+					break
+				}
 				goto scanAgain
 			} else {
 				tok = S.tokenMap.Type("/")
